@@ -11,8 +11,10 @@ the discipline rules it breaks:
       `syncDir` lies between its `create` and the `atomicWrite` (entry durable, content durable,
       not unlinked). DESIGN words D1 with the `syncDir` after the `terminate` as well; that
       implies this form, and this form is all the proof needs;
-* D2  no `write` after `terminate`, `write`/`flush`/`terminate` only on a visible file, a path is
-      created at most once (WORM);
+* D2  no `write` (or second `terminate`) to a path after its `terminate`, a path is created at
+      most once (WORM). Writing to a file that has been unlinked meanwhile is allowed (the
+      detached doc-store compressor of a rolled-back segment does it; the bytes go to an
+      anonymous inode);
 * D3a when `commit()` with id `c` returns, every `meta.json` version a crash could leave belongs to
       a commit `≥ c` (given D0: a `syncDir` lies between the `atomicWrite meta.json` of `c` and the
       return);
@@ -44,9 +46,9 @@ def referencedBy (l : List Payload) (p : Path) : Bool := l.any (fun m => m.refs.
 
 def violations (s : PState) : Op → List Rule
   | .create p => if (s.dir.file p).ever || (s.dir.file p).vis || (s.dir.file p).dur then [.D2] else []
-  | .write p _ => if (s.dir.file p).vis && !(s.dir.file p).term then [] else [.D2]
-  | .flush p => if (s.dir.file p).vis then [] else [.D2]
-  | .terminate p => if (s.dir.file p).vis && !(s.dir.file p).term then [] else [.D2]
+  | .write p _ => if (s.dir.file p).term then [.D2] else []
+  | .flush _ => []
+  | .terminate p => if (s.dir.file p).term then [.D2] else []
   | .syncDir => []
   | .atomicWrite p m =>
     if p = META then
